@@ -173,3 +173,62 @@ def islands(u: Unit):
 
 from . import calibreport as _CR7  # noqa: E402
 unit("C07", "islands.build")(_CR7.build_unit)              # _build executed: island seeds / order / settings (1 and 3 islands, every seed)
+from . import C05 as _C05b  # noqa: E402
+unit("C07", "parallel.custom_columns")(_C05b.custom_parallel_columns)   # the parallel run of a custom-mode row uses the same table columns as the sequential one
+
+
+# ---- the dask task pairs dimension names with tuple components BY POSITION: the names must come in the order of the swept keys -------------
+DIMS_REPLAY = lambda w: {"code": """
+import warnings, numpy as np, verif_probes as VP, pyxel
+from pyxel.exposure import Readout
+from pyxel.observation import Observation, ParameterValues
+from pyxel.observation.observation import _get_short_dimension_names_new
+from pyxel.pipelines import DetectionPipeline, ModelFunction
+warnings.simplefilter('ignore')
+VIOLATED, DETAIL = False, 'dimension names come in the order of the swept keys; every dask run applies each value to its own key'
+for keys in (['detector.environment.temperature', 'pipeline.photon_collection.lamp_a.arguments.level', 'pipeline.photon_collection.lamp_b.arguments.level'],
+             ['pipeline.photon_collection.lamp_a.arguments.level', 'detector.environment.temperature', 'pipeline.photon_collection.lamp_b.arguments.level'],
+             ['pipeline.photon_collection.lamp_a.arguments.level', 'pipeline.photon_collection.lamp_b.arguments.level', 'detector.environment.temperature'],
+             ['detector.environment.temperature', 'pipeline.photon_collection.lamp_a.arguments.level']):
+    got = _get_short_dimension_names_new({k: None for k in keys})
+    if list(got) != keys or len(set(got.values())) != len(keys):
+        VIOLATED, DETAIL = True, f'keys {keys}: names {dict(got)} (order of the keys changed or names not unique)'; break
+if not VIOLATED:
+    pipe = DetectionPipeline(photon_collection=[ModelFunction(func='pyxel.models.photon_collection.illumination', name='lamp_a', arguments={'level': 1.0}),
+                                                ModelFunction(func='pyxel.models.photon_collection.illumination', name='lamp_b', arguments={'level': 1.0})])
+    obs = Observation(parameters=[ParameterValues(key='detector.environment.temperature', values=[100, 200]), ParameterValues(key='pipeline.photon_collection.lamp_a.arguments.level', values=[10.0, 20.0]),
+                                  ParameterValues(key='pipeline.photon_collection.lamp_b.arguments.level', values=[1000.0])], readout=Readout(times=[1.0]), with_dask=True)
+    dt = pyxel.run_mode(mode=obs, detector=VP.detector(), pipeline=pipe, with_inherited_coords=True)
+    ph = dt['/bucket']['photon'] if '/bucket' in dt.groups else dt['photon']
+    ph = ph.compute()
+    for a in (10.0, 20.0):
+        sel = ph.sel({'lamp_a.level': a, 'lamp_b.level': 1000.0}) if 'lamp_a.level' in ph.dims else None
+        if sel is None or not np.allclose(np.asarray(sel.values), a + 1000.0):
+            VIOLATED, DETAIL = True, f'dask run labelled lamp_a.level={a}, lamp_b.level=1000: photon {None if sel is None else float(np.asarray(sel.values).ravel()[0])}, expected {a + 1000.0}; dims {ph.dims}'; break
+""", "expect": "the short dimension names keep the order of the swept keys (the dask task zips them with the value tuple)"}
+
+
+@unit("C07", "dims.order")
+def dims_order(u: Unit):
+    """_get_short_dimension_names_new for key lists with and without ambiguous last components, in every position: the result maps the
+    SAME keys IN THE SAME ORDER (run_pipelines_with_dask / the per-cell task pair the names with the components of a value tuple by
+    position: obligation task.* assumes that order) to pairwise different names — the last component, or <model>.<argument> when two
+    keys end alike; 'observation.readout.times' is 'readout_time'."""
+    fi = u.fn("pyxel/observation/observation.py::_get_short_dimension_names_new")
+    A, B, T, R = "pipeline.photon_collection.lamp_a.arguments.level", "pipeline.photon_collection.lamp_b.arguments.level", "detector.environment.temperature", "observation.readout.times"
+    want_name = lambda k, keys: ("readout_time" if k == R else k.split(".")[-1]) if sum(1 for x in keys if x.split(".")[-1] == k.split(".")[-1]) == 1 or k == R else k.split(".")[2] + "." + k.split(".")[4]
+    for keys in ([T], [T, A], [A, B], [T, A, B], [A, T, B], [A, B, T], [R, T, A], [T, R, B, A]):
+        def setup(ex, keys=keys):
+            return [ex.st.alloc(HDict([(VStr(k), VOpaque("ptype", None, {})) for k in keys]))], {}
+        tag = "[" + ",".join(k.split(".")[-3] + "." + k.split(".")[-1] if k.startswith("pipeline") else k.split(".")[-1] for k in keys) + "]"
+        ps = u.paths(fi, setup, Cfg("real"), label=f"_get_short_dimension_names_new{tag}")
+        for p in ps:
+            d = p.ex.try_dict(p.value) if p.kind == "return" else None
+            if d is None:
+                u.oblige(p, f"dims.order{tag}.returns_mapping", False, {"exc": p.exc_name()}, DIMS_REPLAY)
+                continue
+            got_keys = [str(getattr(k, "v", k)) for k, _ in d]
+            got_vals = [str(getattr(v, "v", v)) for _, v in d]
+            u.oblige(p, f"dims.order{tag}.keys_in_sweep_order", got_keys == keys, {"keys": str(got_keys)}, DIMS_REPLAY)
+            u.oblige(p, f"dims.order{tag}.names", got_vals == [want_name(k, keys) for k in got_keys] and len(set(got_vals)) == len(got_vals), {"names": str(got_vals)}, DIMS_REPLAY)
+        u.cover(f"dims.order.cover{tag}", ps, lambda p: p.kind == "return")
